@@ -49,7 +49,8 @@ def c06Op (args : List String) : String :=
     -- spec 2: a two-way conditional prints exactly one of its two markers (or fails with an error)
     let twoWay := ["op-var", "op-lit", "op-mixed", "truthy-var", "truthy-lit", "truthy-path", "andor"].contains bucket
     let bad2 := twoWay && !(c.obsTag == "err" || (c.obsTag == "ok" && (c.obsPayload == xstr ['T'] || c.obsPayload == xstr ['F'])))
-    if bucket == "OPAPI" then "specfail " ++ c.kind ++ " law=operator-agrees-with-the-value-api impl=" ++ c.obsTag ++ " " ++ c.obsPayload
+    if bucket == "SHADOWPATH" then "specfail " ++ c.kind ++ " law=a-member-of-a-shadowed-outer-value-does-not-count impl=" ++ c.obsTag ++ " " ++ c.obsPayload
+    else if bucket == "OPAPI" then "specfail " ++ c.kind ++ " law=operator-agrees-with-the-value-api impl=" ++ c.obsTag ++ " " ++ c.obsPayload
     else if bad1 then "specfail " ++ c.kind ++ " law=expected-branch impl=" ++ c.obsTag ++ " " ++ c.obsPayload
     else if bad2 then "specfail " ++ c.kind ++ " law=exactly-one-branch impl=" ++ c.obsTag ++ " " ++ c.obsPayload
     else if obsMatches r c.obsTag c.obsPayload then "ok " ++ c.kind
